@@ -5,6 +5,9 @@ HERE = os.path.dirname(os.path.abspath(__file__))
 # id -> (built?, level, technique, level text, level note, design ref)
 RACE = "Go race detector (-race build, GORACE log parsed, reports de-duplicated)"
 T = {
+ "C03": (True, "exploration", "denotation-function monitor: enumerated declaration space x boundary-literal pools x presence shapes through the real untyped handler; value, Go type, 422 and panics judged per request",
+         "The declaration space (3572 declarations: location x type/format x collection format x required x default x allowEmpty x validation) is enumerated completely in the thorough tier (half of it, PRNG-chosen, in quick); each declaration is driven with the boundary literals of its type and all presence shapes; the oracle is a denotation function written from the statement. Exploration, not proof: literal pools are finite.",
+         "trusts strconv/time/encoding/base64 as the definition of literal grammars, net/http for delivery, and the reference denotation; zones the statement leaves open (strconv extras, empty text with validations, non-RFC3339 date-times) are not judged", "DESIGN.md §4 C03"),
  "C02": (True, "exploration", "scripted-authenticator monitor: outcome vectors injected per request, authenticator/authorizer/consumer/handler call logs judged by an OR-of-ANDs reference over the observed evaluation order",
          "Seeded requirement structures x all 4^n outcome vectors (n<=4) x authorizer modes x rebuilds (to vary the map-order of schemes) through the full handler and through Context.Authorize; an oracle written from the statement decides admission, principal, scopes, refusal status and that nothing ran on refusal. Held on the executions produced.",
          "trusts the scripted collaborators (authenticators, authorizer, counting consumer) and the reference evaluator; unconsulted schemes are treated as not having rejected (see DESIGN)", "DESIGN.md §4 C02"),
